@@ -59,6 +59,7 @@ ClauseAt(cfg, st, as, obs, j) ==
             THEN "ForcedNeverConsultsSystem"
        ELSE IF cfg.wm = "nofallback" /\ cfg.fff = {} /\ got.sub # ObsSub(cfg, st.sub)
             THEN "NofallbackNeverConfigures"
+       ELSE IF a.af = "false" /\ got.sub # ObsSub(cfg, st.sub) THEN "AllowFallbackFalseNeverConfigures"
        ELSE IF (a.req /\ got.kind = "notfound") \/ (~a.req /\ ValidArgs(a) /\ got.kind = "error")
             THEN "RequiredNotFoundIsError"
        ELSE IF j > 1 /\ as[j] = as[j - 1] /\ <<got.kind, got.v>> # <<obs[j - 1].kind, obs[j - 1].v>>
@@ -67,7 +68,9 @@ ClauseAt(cfg, st, as, obs, j) ==
        ELSE "DecisionTable"
 
 Verdict(id, clause, step, expected, got) ==
-    [id |-> id, clause |-> clause, step |-> step, expected |-> expected, got |-> got]
+    [id |-> id, clause |-> clause, step |-> step, expected |-> expected, got |-> got, ovr |-> "none"]
+\* ... with the explicit override the specification has in force after the failing step
+WithOvr(v, o) == [v EXCEPT !.ovr = o.st.ovr.kind]
 NoObs == [kind |-> "", v |-> 0, sub |-> ""]
 
 Judge(c) ==
@@ -76,13 +79,13 @@ Judge(c) ==
              as == ArgsOf(c)
              outs == Run(cfg, as)
              d == FirstDiff(cfg, outs, c.obs)
-         IN IF d = 0 THEN Verdict(c.id, "SystemConsulted", 0, NoObs, NoObs)
+         IN IF d = 0 THEN WithOvr(Verdict(c.id, "SystemConsulted", 0, NoObs, NoObs), outs[Len(outs)])
             ELSE IF d > Len(c.obs)    \* the configuration should have gone on (or the harness lost a line)
                  THEN Verdict(c.id, "MissingObservation", d, Proj(cfg, outs[d]), NoObs)
             ELSE IF d > Len(outs)     \* the configuration should have aborted before
                  THEN Verdict(c.id, "RequiredNotFoundIsError", d - 1, Proj(cfg, outs[d - 1]), ObsOf(c.obs[d - 1]))
-            ELSE Verdict(c.id, ClauseAt(cfg, StateBefore(cfg, outs, d), as, c.obs, d), d,
-                         Proj(cfg, outs[d]), ObsOf(c.obs[d]))
+            ELSE WithOvr(Verdict(c.id, ClauseAt(cfg, StateBefore(cfg, outs, d), as, c.obs, d), d,
+                                 Proj(cfg, outs[d]), ObsOf(c.obs[d])), outs[d])
 
 \* first step at which the configuration may abort (0 = never), under any reading
 AbortStep(c, r) ==
